@@ -303,16 +303,27 @@ class World:
         except Exception as e:  # noqa: BLE001
             out['kind'] = 'exc:' + type(e).__name__
         n = self.pulls.n
+        calls = [(_s(a), b) for a, b in self.pulls.calls]
         if names and out['kind'] == 'ok' and api.name in ('fnmatch.fnmatch', 'glob.globmatch', 'pathlib.match', 'pathlib.globmatch'):
             n //= len(names)          # one compile per name
+            calls = calls[:len(calls) // len(names)]
         out['pulls'] = n
+        out['bcalls'] = calls         # (string, limit) of every bracex.iexpand call, in order
         return out
 
-    def model(self, drv, api: Api, pats, excl, flags: int, limit, isb: bool, names=(), known=None):
+    def model(self, drv, api: Api, pats, excl, flags: int, limit, isb: bool, names=(), known=None, want_args=False):
         iflags, sd = self.internal(api, flags, excl is not None)
         lim = 1000 if limit is None else limit
         line = model_line(self.W, self.util, api.loop, iflags, isb, lim, pats, excl, names, known, sd)
-        return parse_model(drv.ask(line)), line
+        mod = parse_model(drv.ask(line))
+        if want_args:
+            o = drv.ask('bargs' + line[len('lists'):])
+            f = o.split(' ')
+            if f[0] == 'ok':
+                mod['bargs'] = [] if f[1] == '-' else [(common.dec(t.rsplit(':', 1)[0]), int(t.rsplit(':', 1)[1])) for t in f[1].split(',')]
+            else:
+                mod['bargs'] = 'MODEL:' + o
+        return mod, line
 
 
 def compare(api: Api, real: dict, mod: dict, brace: bool = True) -> str | None:
@@ -325,6 +336,12 @@ def compare(api: Api, real: dict, mod: dict, brace: bool = True) -> str | None:
         return f"outcome {real['kind']} vs model {mod['kind']}"
     if real['pulls'] != (mod['pulls'] if brace else 0):
         return f"pulls {real['pulls']} vs model {mod['pulls']}"
+    if brace and mod.get('bargs') is not None and real.get('bcalls') is not None and real['bcalls'] != mod['bargs']:
+        k = next((i for i, (a, b) in enumerate(zip(real['bcalls'], mod['bargs'])) if a != b), min(len(real['bcalls']), len(mod['bargs'])))
+        ra = real['bcalls'][k] if k < len(real['bcalls']) else None
+        ma = mod['bargs'][k] if k < len(mod['bargs']) else None
+        return (f"bracex call #{k}: code called iexpand{(ra[0][:40], ra[1]) if ra else '(nothing)'} , "
+                f"model current_limit says {(ma[0][:40], ma[1]) if ma else '(no call)'}")
     if real['kind'] != 'ok':
         return None
     if real.get('pos') is not None and api.loop != 'gl' and real['pos'] != mod['pos']:
